@@ -49,7 +49,7 @@ def varOf : String → Option Var
 
 def allFlags : List Flag :=
   [.labelsNotStr, .labelsEmpty, .labelsEqual, .utilNotList, .utilNonReal, .utilEmpty, .utilInf, .candNotList,
-   .candLen, .measNotList, .measNonReal, .measInf, .measLen, .valueNotNone, .valueNotStr, .valueNotInDomain,
+   .candLen, .measNotList, .measNonReal, .measInf, .measNegative, .measLen, .valueNotNone, .valueNotStr, .valueNotInDomain,
    .valueNotCallable, .valueNotArray, .valueBadShape, .nLt1]
 
 def flagStr (f : Flag) : String := (reprStr f).replace "DPL.Val.Flag." ""
